@@ -61,8 +61,7 @@ class State:
         return s
 
     def assume(self, t, label="assume"):
-        t = z3.simplify(t) if z3.is_expr(t) else t
-        if z3.is_true(t):
+        if z3.is_expr(t) and z3.is_true(z3.simplify(t)):
             return
         self.pc.append((label, t))
 
@@ -107,7 +106,8 @@ class Executor:
     # ------------------------------------------------------------------ obligations
     def oblige(self, st: State, name, goal, kind="safety", serves=None, lineno=0, boundary=True, clause="",
                assume_after=True, extra=None):
-        goal = z3.simplify(goal) if z3.is_expr(goal) else z3.BoolVal(bool(goal))
+        if not z3.is_expr(goal):
+            goal = z3.BoolVal(bool(goal))
         ob = Obligation(name=f"{self.func}::{name}", kind=kind, func=self.func, hyps=list(st.pc), goal=goal,
                         serves=list(serves or self.cur_serves), lineno=lineno, boundary=boundary, clause=clause,
                         extra=extra or {})
@@ -874,7 +874,7 @@ class Executor:
     def ex_AnnAssign(self, st, s):
         if s.value is None:
             return [(st, Outcome(Outcome.NORMAL))]
-        hint = self.reg.type_from_annotation(s.annotation)
+        hint = self.reg.type_from_annotation(s.annotation, self.prog.funcs[self.func].module if self.func in self.prog.funcs else None)
 
         def k(s2, v):
             if hint is not None and isinstance(v, VRef):
